@@ -27,6 +27,7 @@ SH = "http://www.w3.org/ns/shacl#"
 def cases(draw):
     g = draw(gg.general(inst_props=(RDF_TYPE, RDF_TYPE, RDF_TYPE, "http://ex.org/isA")))
     cfg = draw(gg.switches())
+    cfg.update(draw(gg.harmless_extras()))
     target = draw(common.target_spec(g))
     thr = draw(st.sampled_from([0, 0, 0, 0.5, 1 / 3, 1]))
     return {"g": g, "cfg": cfg, "target": target, "thr": thr}
